@@ -7,107 +7,170 @@ Import ListNotations.
 Require Import Pauli Collapse Sem Span Refine Run FrameRun FrameProg SpecSem SpecSemFull SpecComplete.
 Require Stab Act Gen_GateTable Spec SpecProofs.
 
-Definition compile1 (n : nat) (i : Spec.sinstr) : option (list SpecSem.sop) :=
+(* which internal results are visible in Spec.recs (Some inversion) and which are hidden (None: the measurement inside a reset) *)
+Definition vis := list (option bool).
+Fixpoint proj (v : vis) (recs : list Stab.form) : list Stab.form :=
+  match v, recs with
+  | Some inv :: v', f :: r' => Stab.fflip f inv :: proj v' r'
+  | None :: v', _ :: r' => proj v' r'
+  | _, _ => []
+  end.
+Fixpoint vfind (k : nat) (v : vis) : option (nat * bool) :=
+  match v with
+  | [] => None
+  | None :: v' => option_map (fun p => (S (fst p), snd p)) (vfind k v')
+  | Some inv :: v' => match k with 0 => Some (0, inv) | S k' => option_map (fun p => (S (fst p), snd p)) (vfind k' v') end
+  end.
+Lemma vfind_proj : forall (v : vis) recs k idx inv, List.length v = List.length recs -> vfind k v = Some (idx, inv) ->
+  k < List.length (proj v recs) /\ nth k (proj v recs) Stab.fzero = Stab.fflip (nth idx recs Stab.fzero) inv.
+Proof.
+  induction v as [|[i0|] v IH]; intros [|f recs] k idx inv HL Hf; cbn [vfind proj] in *; try discriminate; cbn [List.length] in HL; try lia.
+  - destruct k as [|k].
+    + injection Hf as <- <-. cbn. split; [lia| reflexivity].
+    + destruct (vfind k v) as [[i1 b1]|] eqn:E; [|discriminate]. cbn in Hf. injection Hf as <- <-.
+      destruct (IH recs k i1 b1 ltac:(lia) E) as [H1 H2]. cbn [List.length nth]. split; [lia| exact H2].
+  - destruct (vfind k v) as [[i1 b1]|] eqn:E; [|discriminate]. cbn in Hf. injection Hf as <- <-.
+    destruct (IH recs k i1 b1 ltac:(lia) E) as [H1 H2]. cbn [nth]. split; [exact H1| exact H2].
+Qed.
+
+Definition compile1 (n : nat) (v : vis) (i : Spec.sinstr) : option (list SpecSem.sop * vis) :=
   match i with
-  | Spec.SU1 g q => Some [SpecSem.SG1 (Act.gate_id g) q]
-  | Spec.SU2 g a b => Some [SpecSem.SG2 (Act.gate_id g) a b]
-  | Spec.SMeas P false =>
+  | Spec.SU1 g q => Some ([SpecSem.SG1 (Act.gate_id g) q], v)
+  | Spec.SU2 g a b => Some ([SpecSem.SG2 (Act.gate_id g) a b], v)
+  | Spec.SMeas P inv =>
       if Stab.is_identity (snd (Spec.herm_of n P)) then None
-      else Some [SpecSem.SMs (fst (Spec.herm_of n P)) (snd (Spec.herm_of n P))]
-  | Spec.SMeasReset b q false =>
-      Some [SpecSem.SMs false (Stab.single n q (Stab.bpz b)); SpecSem.SPif (Stab.single n q (Stab.flip_of b)) 0]
-  | Spec.SPauliIf P (Spec.CRec (S k)) => Some [SpecSem.SPif (snd (Spec.herm_of n P)) k]
-  | Spec.SPauliIf P (Spec.CVar v) => Some [SpecSem.SPifv (snd (Spec.herm_of n P)) (N.to_nat v)]
+      else Some ([SpecSem.SMs (fst (Spec.herm_of n P)) (snd (Spec.herm_of n P))], Some inv :: v)
+  | Spec.SMeasReset b q inv =>
+      Some ([SpecSem.SMs false (Stab.single n q (Stab.bpz b)); SpecSem.SPif (Stab.single n q (Stab.flip_of b)) 0], Some inv :: v)
+  | Spec.SReset b q =>
+      Some ([SpecSem.SMs false (Stab.single n q (Stab.bpz b)); SpecSem.SPif (Stab.single n q (Stab.flip_of b)) 0], None :: v)
+  | Spec.SPauliIf P (Spec.CRec (S k)) =>
+      match vfind k v with
+      | Some (idx, inv) => Some ((if inv then [SpecSem.SPauli (snd (Spec.herm_of n P))] else []) ++ [SpecSem.SPif (snd (Spec.herm_of n P)) idx], v)
+      | None => None
+      end
+  | Spec.SPauliIf P (Spec.CVar x) => Some ([SpecSem.SPifv (snd (Spec.herm_of n P)) (N.to_nat x)], v)
   | _ => None
   end.
-Fixpoint compile (n : nat) (c : list Spec.sinstr) : option (list SpecSem.sop) :=
+Fixpoint compile (n : nat) (v : vis) (c : list Spec.sinstr) : option (list SpecSem.sop * vis) :=
   match c with
-  | [] => Some []
-  | i :: c' => match compile1 n i, compile n c' with Some a, Some b => Some (a ++ b) | _, _ => None end
+  | [] => Some ([], v)
+  | i :: c' => match compile1 n v i with
+               | Some (a, v1) => match compile n v1 c' with Some (b, v2) => Some (a ++ b, v2) | None => None end
+               | None => None
+               end
   end.
 
-Definition srel (r : Spec.sres) (s : Stab.state * list Stab.form) : Prop := Spec.st r = fst s /\ Spec.recs r = rev (snd s).
+Definition srel (r : Spec.sres) (s : Stab.state * list Stab.form) (v : vis) : Prop :=
+  Spec.st r = fst s /\ List.length v = List.length (snd s) /\ Spec.recs r = rev (proj v (snd s)).
 
 Lemma rec_at_rev (l : list Stab.form) k : k < List.length l -> Spec.rec_at (rev l) (S k) = nth k l Stab.fzero.
 Proof.
   intros H. unfold Spec.rec_at. rewrite rev_length. rewrite rev_nth by lia. f_equal. lia.
 Qed.
 
-Lemma step_link n i ops r s : compile1 n i = Some ops -> srel r s ->
-  (forall k P, i = Spec.SPauliIf P (Spec.CRec (S k)) -> k < List.length (snd s)) ->
-  srel (Spec.sstep n i r) (fold_left (fun s o => SpecSem.sexec o s) ops s).
+Lemma form_flip a f : Stab.fxor (Stab.fxor a (Stab.fconst true)) f = Stab.fxor a (Stab.fflip f true).
+Proof. destruct a as [a0 a1], f as [f0 f1]. unfold Stab.fxor, Stab.fconst, Stab.fflip; cbn [fst snd]. rewrite N.lxor_0_r. f_equal. destruct a0, f0; reflexivity. Qed.
+Lemma pauli_if_flip F f st : Stab.pauli_if F (Stab.fflip f true) st = Stab.pauli_if F f (Stab.pauli_if F (Stab.fconst true) st).
 Proof.
-  intros Hc [Hst Hrec] Hk. destruct s as [st recs]. cbn [fst snd] in *. destruct i; cbn [compile1] in Hc; try discriminate.
-  - injection Hc as <-. cbn [fold_left SpecSem.sexec]. split; cbn [fst snd]; [|exact Hrec]. cbn [Spec.sstep Spec.st]. now rewrite Hst.
-  - injection Hc as <-. cbn [fold_left SpecSem.sexec]. split; cbn [fst snd]; [|exact Hrec]. cbn [Spec.sstep Spec.st]. now rewrite Hst.
-  - destruct invert; [discriminate|]. destruct (Stab.is_identity (snd (Spec.herm_of n P))) eqn:Eid; [discriminate|]. injection Hc as <-.
-    cbn [fold_left SpecSem.sexec]. destruct (SpecSem.sstep_SMeas n P false r Eid) as [E1 E2]. rewrite Hst in E1, E2.
+  unfold Stab.pauli_if; cbn [Stab.gens Stab.ncoins]. f_equal. rewrite map_map. apply map_ext. intros g.
+  destruct (Stab.anti F (snd g)) eqn:E; cbn [snd fst]; rewrite E; [|reflexivity]. now rewrite form_flip.
+Qed.
+
+Lemma step_link n v i ops v' r s : compile1 n v i = Some (ops, v') -> srel r s v ->
+  srel (Spec.sstep n i r) (fold_left (fun s o => SpecSem.sexec o s) ops s) v'.
+Proof.
+  intros Hc (Hst & Hlen & Hrec). destruct s as [st recs]. cbn [fst snd] in *. destruct i; cbn [compile1] in Hc; try discriminate.
+  - injection Hc as <- <-. cbn [fold_left SpecSem.sexec]. split; cbn [fst snd]; [|split; [exact Hlen| exact Hrec]]. cbn [Spec.sstep Spec.st]. now rewrite Hst.
+  - injection Hc as <- <-. cbn [fold_left SpecSem.sexec]. split; cbn [fst snd]; [|split; [exact Hlen| exact Hrec]]. cbn [Spec.sstep Spec.st]. now rewrite Hst.
+  - destruct (Stab.is_identity (snd (Spec.herm_of n P))) eqn:Eid; [discriminate|]. injection Hc as <- <-.
+    cbn [fold_left SpecSem.sexec]. destruct (SpecSem.sstep_SMeas n P invert r Eid) as [E1 E2]. rewrite Hst in E1, E2.
     destruct (Stab.measure (fst (Spec.herm_of n P)) (snd (Spec.herm_of n P)) st) as [f st1]. cbn [fst snd] in *.
-    split; cbn [fst snd]; [exact E1|]. rewrite E2, Hrec. cbn [rev]. now rewrite SpecSem.fflip_false.
-  - destruct invert; [discriminate|]. injection Hc as <-. cbn [fold_left SpecSem.sexec].
-    destruct (SpecSem.sstep_SMeasReset n b q false r) as [E1 E2]. rewrite Hst in E1, E2.
+    split; [exact E1|]. split; [cbn; lia|]. rewrite E2, Hrec. reflexivity.
+  - injection Hc as <- <-. cbn [fold_left SpecSem.sexec].
+    pose proof (SpecSem.sstep_SReset n b q r) as E1. rewrite Hst in E1.
+    assert (E2 : Spec.recs (Spec.sstep n (Spec.SReset b q) r) = Spec.recs r).
+    { cbn [Spec.sstep]. destruct (Stab.measure false (Stab.single n q (Stab.bpz b)) (Spec.st r)). reflexivity. }
     destruct (Stab.measure false (Stab.single n q (Stab.bpz b)) st) as [f st1]. cbn [fst snd nth] in *.
-    split; cbn [fst snd]; [exact E1|]. rewrite E2, Hrec. cbn [rev]. now rewrite SpecSem.fflip_false.
-  - destruct c as [[|k]|v]; try discriminate.
-    + injection Hc as <-. cbn [fold_left SpecSem.sexec].
-      split; cbn [fst snd]; [|cbn [Spec.sstep]; destruct (Spec.herm_of n P); exact Hrec].
-      rewrite SpecSem.sstep_SPauliIf, Hst. cbn [Spec.ctrl_form]. rewrite Hrec, rec_at_rev by (exact (Hk k P eq_refl)). reflexivity.
-    + injection Hc as <-. cbn [fold_left SpecSem.sexec].
-      split; cbn [fst snd]; [|cbn [Spec.sstep]; destruct (Spec.herm_of n P); exact Hrec].
+    split; [exact E1|]. split; [cbn; lia|]. rewrite E2, Hrec. reflexivity.
+  - injection Hc as <- <-. cbn [fold_left SpecSem.sexec].
+    destruct (SpecSem.sstep_SMeasReset n b q invert r) as [E1 E2]. rewrite Hst in E1, E2.
+    destruct (Stab.measure false (Stab.single n q (Stab.bpz b)) st) as [f st1]. cbn [fst snd nth] in *.
+    split; [exact E1|]. split; [cbn; lia|]. rewrite E2, Hrec. reflexivity.
+  - destruct c as [[|k]|x]; try discriminate.
+    + destruct (vfind k v) as [[idx inv]|] eqn:Ef; [|discriminate]. injection Hc as <- <-.
+      destruct (vfind_proj v recs k idx inv Hlen Ef) as [Hk Hn].
+      assert (Ectl : Spec.ctrl_form (Spec.recs r) (Spec.CRec (S k)) = Stab.fflip (nth idx recs Stab.fzero) inv).
+      { cbn [Spec.ctrl_form]. rewrite Hrec, rec_at_rev by exact Hk. exact Hn. }
+      split; [|split; [|cbn [Spec.sstep]; destruct (Spec.herm_of n P)]].
+      * rewrite SpecSem.sstep_SPauliIf, Hst, Ectl. destruct inv; cbn [app fold_left SpecSem.sexec fst].
+        -- apply pauli_if_flip.
+        -- now rewrite SpecSem.fflip_false.
+      * destruct inv; cbn [app fold_left SpecSem.sexec snd]; exact Hlen.
+      * destruct inv; cbn [app fold_left SpecSem.sexec snd]; exact Hrec.
+    + injection Hc as <- <-. cbn [fold_left SpecSem.sexec].
+      split; cbn [fst snd]; [|split; [exact Hlen| cbn [Spec.sstep]; destruct (Spec.herm_of n P); exact Hrec]].
       rewrite SpecSem.sstep_SPauliIf, Hst. cbn [Spec.ctrl_form]. unfold Spec.var_form, SpecSem.varf. now rewrite N2Nat.id.
 Qed.
 
-Fixpoint look_ok (n : nat) (c : list Spec.sinstr) (s : Stab.state * list Stab.form) : Prop :=
-  match c with
-  | [] => True
-  | i :: c' => match compile1 n i with
-               | Some ops => (forall k P, i = Spec.SPauliIf P (Spec.CRec (S k)) -> k < List.length (snd s)) /\
-                             look_ok n c' (fold_left (fun s o => SpecSem.sexec o s) ops s)
-               | None => False
-               end
-  end.
-
-Lemma run_link n c : forall ops r s, compile n c = Some ops -> look_ok n c s -> srel r s ->
-  srel (fold_left (fun r i => Spec.sstep n i r) c r) (fold_left (fun s o => SpecSem.sexec o s) ops s).
+Lemma run_link n c : forall v ops v' r s, compile n v c = Some (ops, v') -> srel r s v ->
+  srel (fold_left (fun r i => Spec.sstep n i r) c r) (fold_left (fun s o => SpecSem.sexec o s) ops s) v'.
 Proof.
-  induction c as [|i c IH]; intros ops r s Hc Hl Hr; cbn [compile look_ok fold_left] in *.
-  - injection Hc as <-. exact Hr.
-  - destruct (compile1 n i) as [a|] eqn:E1; [|discriminate]. destruct (compile n c) as [b|] eqn:E2; [|discriminate]. injection Hc as <-.
-    destruct Hl as [Hk Hl]. rewrite fold_left_app. apply IH; [reflexivity| exact Hl|]. now apply step_link.
+  induction c as [|i c IH]; intros v ops v' r s Hc Hr; cbn [compile fold_left] in *.
+  - injection Hc as <- <-. exact Hr.
+  - destruct (compile1 n v i) as [[a v1]|] eqn:E1; [|discriminate]. destruct (compile n v1 c) as [[b v2]|] eqn:E2; [|discriminate]. injection Hc as <- <-.
+    rewrite fold_left_app. apply (IH v1 b v2); [exact E2|]. now apply (step_link n v i a v1).
 Qed.
 
-Lemma sinit_rel n base : srel (Spec.sinit n base) (SpecSem.st0 n base, []).
-Proof. split; reflexivity. Qed.
+Lemma sinit_rel n base : srel (Spec.sinit n base) (SpecSem.st0 n base, []) [].
+Proof. split; [reflexivity|]. split; reflexivity. Qed.
+
+(* Spec.recs is the visible, possibly inverted, part of the internal record *)
+Fixpoint projb (v : vis) (bs : list bool) : list bool :=
+  match v, bs with
+  | Some inv :: v', b :: r' => xorb b inv :: projb v' r'
+  | None :: v', _ :: r' => projb v' r'
+  | _, _ => []
+  end.
+Lemma map_proj (ev : Stab.form -> bool) : (forall f b, ev (Stab.fflip f b) = xorb (ev f) b) ->
+  forall (v : vis) recs, map ev (proj v recs) = projb v (map ev recs).
+Proof.
+  intros Hfl. induction v as [|[i0|] v IH]; intros [|f recs]; cbn [proj projb map]; try reflexivity.
+  - now rewrite Hfl, IH.
+  - apply IH.
+Qed.
 
 (* Spec.srun: its recorded forms, evaluated under ANY assignment (coins from `base` upwards, sweep / fault variables below), are the
-   record of a run the semantics allows, with the external bits that assignment gives to the variables ... *)
-Theorem srun_sound n base c ops m k : compile n c = Some ops -> Forall (SpecSem.sop_ok n) ops -> look_ok n c (SpecSem.st0 n base, []) ->
-  exists l S', FrameProg.realize (fun v => SpecProofs.eval_form m k (SpecSem.varf v)) [] (map SpecSem.tr ops) l /\
+   visible part (inversions applied, reset-internal results dropped) of the record of a run the semantics allows, with the external
+   bits that assignment gives to the variables ... *)
+Theorem srun_sound n base c ops v' m k : compile n [] c = Some (ops, v') -> Forall (SpecSem.sop_ok n) ops ->
+  exists l S', FrameProg.realize (fun x => SpecProofs.eval_form m k (SpecSem.varf x)) [] (map SpecSem.tr ops) l /\
                Run.sem_run (fun P => Zplus P) l S' /\
-               rev (fold_left SpecSem.push l []) = map (SpecProofs.eval_form m k) (Spec.recs (Spec.srun n base c)).
+               rev (projb v' (fold_left SpecSem.push l [])) = map (SpecProofs.eval_form m k) (Spec.recs (Spec.srun n base c)).
 Proof.
-  intros Hc Hok Hl. destruct (spec_circuits_sound_unconditional n base m k ops Hok) as (l & S' & Hre & Hrun & _ & Hrec).
+  intros Hc Hok. destruct (spec_circuits_sound_unconditional n base m k ops Hok) as (l & S' & Hre & Hrun & _ & Hrec).
   exists l, S'. split; [exact Hre|]. split; [exact Hrun|].
-  destruct (run_link n c ops (Spec.sinit n base) (SpecSem.st0 n base, []) Hc Hl (sinit_rel n base)) as [_ E]. unfold Spec.srun. rewrite E, Hrec. symmetry. apply map_rev.
+  destruct (run_link n c [] ops v' (Spec.sinit n base) (SpecSem.st0 n base, []) Hc (sinit_rel n base)) as (_ & _ & E).
+  unfold Spec.srun. rewrite E, Hrec, map_rev. f_equal. symmetry. apply map_proj. apply SpecSem.eval_form_fflip.
 Qed.
-(* ... and every run the semantics allows under external bits ext0 has such an evaluation as its record, with the variables below
-   `base` pinned to ext0 *)
-Theorem srun_complete n base ext0 c ops la S' : compile n c = Some ops -> Forall (SpecSem.sop_ok n) ops -> vars_below base ops ->
-  look_ok n c (SpecSem.st0 n base, []) ->
+(* ... and every run the semantics allows under external bits ext0 has such an evaluation as its visible record, with the variables
+   below `base` pinned to ext0 *)
+Theorem srun_complete n base ext0 c ops v' la S' : compile n [] c = Some (ops, v') -> Forall (SpecSem.sop_ok n) ops -> vars_below base ops ->
   FrameProg.realize ext0 [] (map SpecSem.tr ops) la -> Run.sem_run (fun P => Zplus P) la S' ->
-  exists m k, List.length k = m /\ (forall v, v < base -> v < m /\ nth v k false = ext0 v) /\
-    rev (fold_left SpecSem.push la []) = map (SpecProofs.eval_form m k) (Spec.recs (Spec.srun n base c)).
+  exists m k, List.length k = m /\ (forall x, x < base -> x < m /\ nth x k false = ext0 x) /\
+    rev (projb v' (fold_left SpecSem.push la [])) = map (SpecProofs.eval_form m k) (Spec.recs (Spec.srun n base c)).
 Proof.
-  intros Hc Hok Hv Hl Hre Hrun. destruct (spec_complete_oracle n base ext0 ops la S' Hok Hv Hre Hrun) as (m & k & Hm & Hpin & Hrec).
+  intros Hc Hok Hv Hre Hrun. destruct (spec_complete_oracle n base ext0 ops la S' Hok Hv Hre Hrun) as (m & k & Hm & Hpin & Hrec).
   exists m, k. split; [exact Hm|]. split; [exact Hpin|].
-  destruct (run_link n c ops (Spec.sinit n base) (SpecSem.st0 n base, []) Hc Hl (sinit_rel n base)) as [_ E]. unfold Spec.srun. rewrite E, Hrec. symmetry. apply map_rev.
+  destruct (run_link n c [] ops v' (Spec.sinit n base) (SpecSem.st0 n base, []) Hc (sinit_rel n base)) as (_ & _ & E).
+  unfold Spec.srun. rewrite E, Hrec, map_rev. f_equal. symmetry. apply map_proj. apply SpecSem.eval_form_fflip.
 Qed.
 Print Assumptions srun_sound. Print Assumptions srun_complete.
 
-(* non-vacuity: a Bell-pair circuit with a measure-reset and feedback compiles, and its operations are well formed *)
+(* non-vacuity: a circuit with a reset, an inverted measurement, feedback on it, a sweep-controlled Pauli and a measure-reset *)
 Example srun_link_example :
   let c := [Spec.SU1 (Act.e_id (Act.gate_named "H"%string)) 0; Spec.SU2 (Act.e_id (Act.gate_named "CX"%string)) 0 1;
-            Spec.SMeasReset Stab.BZ 0 false; Spec.SPauliIf [(1, (true, false))] (Spec.CRec 1); Spec.SPauliIf [(0, (false, true))] (Spec.CVar 0);
-            Spec.SMeas [(1, (false, true))] false] in
-  exists ops, compile 2 c = Some ops /\ List.length ops = 7.
-Proof. vm_compute. eexists. split; reflexivity. Qed.
+            Spec.SReset Stab.BZ 1; Spec.SMeas [(0, (false, true))] true; Spec.SPauliIf [(1, (true, false))] (Spec.CRec 1);
+            Spec.SPauliIf [(0, (false, true))] (Spec.CVar 0); Spec.SMeasReset Stab.BZ 0 false; Spec.SMeas [(1, (false, true))] false] in
+  exists ops v', compile 2 [] c = Some (ops, v') /\ List.length ops = 11 /\ v' = [Some false; Some false; Some true; None].
+Proof. vm_compute. eexists; eexists. split; [reflexivity|]. split; reflexivity. Qed.
